@@ -148,9 +148,9 @@ def xy_spec(draw, families=None, costs=("chi2",), n_sources=(0, 4), x_errors=Tru
         k = draw(st.integers(1, npar - 1))
         for nm in draw(st.permutations(order))[:k]:
             fx[nm] = tb[nm] * draw(st.sampled_from([1.0, 1.0, 1.05, 0.9]))
-            # exactly 0.0 is a value like any other ("fix the offset to zero"); only where the model stays well defined: every parameter of a
-            # family that is linear in its parameters, and position / phase parameters of the others
-            if (F.linear or nm in ("mu", "phi", "x0")) and draw(st.integers(0, 5)) == 0:
+            # exactly 0.0 is a value like any other ("fix the offset to zero"); only for families that are linear in their parameters, where the rest stays a
+            # well-posed linear problem (a peak whose position is fixed 4 widths away from the data is not: observed width -> 3e-5, fit results arbitrary)
+            if F.linear and draw(st.integers(0, 5)) == 0:
                 fx[nm] = 0.0
     start = {nm: tb[nm] * (1 + 0.1 * draw(st.floats(-1, 1))) for nm in order}
     lim = {}
